@@ -194,3 +194,15 @@ def p_complete_at_rename(I, args, kwargs, node):
 
 
 PRIMS['complete_at_rename'] = p_complete_at_rename
+
+
+def p_same_map(I, args, kwargs, node):
+    """two dict values have the same keys and the same value for every key"""
+    a, b = args
+    k = z3.Const('k!same_map', a.has.sort().domain())
+    return VBool(z3.ForAll([k], z3.And(z3.Select(a.has, k) == z3.Select(b.has, k),
+                                        z3.Implies(z3.Select(a.has, k),
+                                                   z3.Select(a.val, k) == z3.Select(b.val, k)))))
+
+
+PRIMS['same_map'] = p_same_map
